@@ -2,6 +2,7 @@ import Pendulum.Proofs.FmtMisc
 import Pendulum.Proofs.FmtTokenize
 import Pendulum.Proofs.FmtLocales
 import Pendulum.Props.C15
+import Pendulum.Proofs.GettersFmtGen
 /-! # C08 — format() renders every token correctly and from_format() inverts it
 
 Property theorems only. `Gen.Format.*` / `Gen.FormatLocales.*` / `Gen.py_*` are regenerated from
@@ -550,5 +551,41 @@ theorem d_token_counterexample :
     format Gen.FormatLocales.loc_en sample "YYYY-MM-DD d".toList = .ok "2021-03-05 5".toList ∧
     parse Gen.FormatLocales.loc_en "2021-03-05 5".toList "YYYY-MM-DD d".toList ⟨2000, 1, 1⟩
       = .ok ⟨2021, 3, 6, 0, 0, 0, 0, none⟩ := by decide +kernel
+
+/-! ### ---- BEGIN section added by the `Gen/Getters` translator (tools/gen_getters.py) ----
+the `to_*_string()` helpers as regenerated statement by statement from datetime.py -/
+
+/-- **the `to_*_string()` helpers of the source dispatch as the model does**: `Gen.Getters.dt_to_<x>_string` (regenerated from
+    the method bodies of datetime.py with `_to_string`, the `_FORMATS` lookup, the `callable` test and `FormattableMixin.format`
+    inlined) hands `Formatter.format` / `isoformat("T")` exactly the format string and locale that `Fmt.toStringHelper` takes
+    from the tables of `Gen/Format.lean` (`GettersGen.helperReq` is that dispatch written as the call it makes), for every
+    helper, every instance and every implementation `E` of the formatter; the two translators list the same 14 helpers -/
+theorem to_string_dispatch_source {O : Type} (E : Gen.Getters.Ext O) (self : Gen.Getters.Inst O) :
+    (Gen.Getters.dt_to_string_helpers (O := O)).map (·.1) = Gen.Format.toStringHelpers.map (·.1) ∧
+    (Gen.Getters.dt_to_string_helpers (O := O)).map (fun p => some (p.2 E self)) =
+      Gen.Format.toStringHelpers.map (GettersGen.helperReq E self) ∧
+    -- the documented compositions, helper by helper (constants of constants.py)
+    (Gen.Getters.dt_to_string_helpers (O := O)).map (fun p => (p.1, p.2 E self)) =
+      [("to_time_string", E.dt_format self.obj "HH:mm:ss" none),
+       ("to_datetime_string", E.dt_format self.obj "YYYY-MM-DD HH:mm:ss" none),
+       ("to_day_datetime_string", E.dt_format self.obj "ddd, MMM D, YYYY h:mm A" (some "en")),
+       ("to_atom_string", E.dt_format self.obj Gen.py_ATOM none),
+       ("to_cookie_string", E.dt_format self.obj Gen.py_COOKIE (some "en")),
+       ("to_iso8601_string", GettersGen.iso8601Req E self),
+       ("to_rfc822_string", E.dt_format self.obj Gen.py_RFC822 none),
+       ("to_rfc850_string", E.dt_format self.obj Gen.py_RFC850 none),
+       ("to_rfc1036_string", E.dt_format self.obj Gen.py_RFC1036 none),
+       ("to_rfc1123_string", E.dt_format self.obj Gen.py_RFC1123 none),
+       ("to_rfc2822_string", E.dt_format self.obj Gen.py_RFC2822 none),
+       ("to_rfc3339_string", E.dt_isoformat self.obj (some "T")),
+       ("to_rss_string", E.dt_format self.obj Gen.py_RSS none),
+       ("to_w3c_string", E.dt_format self.obj Gen.py_W3C none)] :=
+  ⟨(GettersGen.to_string_dispatch E self).1, (GettersGen.to_string_dispatch E self).2,
+   GettersGen.to_string_documented E self⟩
+
+/-- non-vacuity: the named format reaches the formatter, the callable entries reach `isoformat("T")` -/
+example : GettersGen.helperReq GettersGen.refExt (GettersGen.refExt.view 0) ("to_rss_string", "named", "rss", "") =
+    some (GettersGen.refExt.dt_format 0 "ddd, DD MMM YYYY HH:mm:ss ZZ" none) := by decide +kernel
+/-! ### ---- END section added by the `Gen/Getters` translator ---- -/
 
 end Pendulum.Props.C08
